@@ -9,7 +9,10 @@ let parse_call (s:ostring) : (z * z list) =
 
 let join_z l = String.concat "," (List.map string_of_z l)
 let sb = string_of_bool
-let probes = List.init 12 (fun i -> z_of_int (i - 1))
+let probes0 = List.init 12 (fun i -> z_of_int (i - 1))
+(* -1..10, then every node named in the calls (source, then its destinations, in call order) not yet listed *)
+let probes_of (cs : (z * z list) list) =
+  List.fold_left (fun acc (f, ts) -> List.fold_left (fun acc n -> if List.mem n acc then acc else acc @ [n]) acc (f :: ts)) probes0 cs
 
 let register (reg : ostring -> (ostring list -> ostring list) -> (ostring list -> ostring list -> ostring option) -> unit) =
   let graph a =
@@ -18,7 +21,7 @@ let register (reg : ostring -> (ostring list -> ostring list) -> (ostring list -
     match default_start g with
     | None -> ["nostart"]
     | Some s ->
-      List.map (fun n -> Printf.sprintf "%s:%s:%s:%s" (string_of_z n) (sb (is_valid g n)) (sb (is_terminal g n)) (join_z (transitions g n))) probes
+      List.map (fun n -> Printf.sprintf "%s:%s:%s:%s" (string_of_z n) (sb (is_valid g n)) (sb (is_terminal g n)) (join_z (transitions g n))) (probes_of cs)
       @ ["start=" ^ string_of_z s; "S=" ^ join_z (starting_nodes g); "T=" ^ join_z (terminal_nodes g)] in
   let graph_mon a obs =
     let es = edges_of (List.map parse_call a) in
